@@ -77,18 +77,49 @@ pub fn group_context(version: u16, cipher_suite: u16, group_id: &[u8], epoch: u6
     out
 }
 
+/// Copy a slice whose length must be N into an array (lifts values read back from the provider log,
+/// whose lengths the model checker does not constant-fold, to a statically known length).
+pub fn fix<const N: usize>(v: &[u8]) -> [u8; N] {
+    assert!(v.len() == N, "value has an unexpected length");
+    let mut a = [0u8; N];
+    let mut i = 0;
+    while i < N {
+        a[i] = v[i];
+        i += 1;
+    }
+    a
+}
+
+/// Equality of two byte strings that must both have the statically known length `n` (the loop bound is
+/// `n`, never a length read back from the code under test or from the provider log).
+pub fn eqn(a: &[u8], b: &[u8], n: usize) -> bool {
+    if a.len() != n || b.len() != n {
+        return false;
+    }
+    let mut same = true;
+    let mut i = 0;
+    while i < n {
+        same &= a[i] == b[i];
+        i += 1;
+    }
+    same
+}
+
+/// Byte equality. Pass the value of statically known length FIRST: the loop runs over `a`.
 pub fn eq(a: &[u8], b: &[u8]) -> bool {
     if a.len() != b.len() {
         return false;
     }
+    // branch-free accumulation: an early return on symbolic data makes every later iteration
+    // conditionally reachable, which the model checker pays for dearly (measured: 256 s / 17 GB
+    // vs 5 s / 0.2 GB for an 11-byte comparison)
+    let mut same = true;
     let mut i = 0;
     while i < a.len() {
-        if a[i] != b[i] {
-            return false;
-        }
+        same &= a[i] == b[i];
         i += 1;
     }
-    true
+    same
 }
 
 pub fn zeros(n: usize) -> Vec<u8> {
